@@ -18,7 +18,8 @@ RULE = ('metamorphic: a generated module M (expr/ctrl/calls/mem/inst/consts gene
         'follows a hash of the raw body bytes); (3) two runs on the same bytes are byte-identical; (4) one padded encoding is '
         'compiled and run against the reference interpreter. Non-trivial = encoding with >=1 padded field inside a body and >=1 '
         'padded section-level field, or a custom section between known sections, a flag-2 data segment, an empty-vs-omitted '
-        'section, or an extra DataCount section; distinct by encoded bytes.')
+        'section, an extra DataCount section, or a file brought to an exact size (multiples of 512 ... 65536 bytes and their '
+        'neighbours) by one custom section; distinct by encoded bytes.')
 ASSUME = ['single-byte grammar fields (value types, limits flags, kinds, reserved bytes) are never padded',
           'the set-of-definitions comparison is only made between outputs of the same w2c2 build']
 
@@ -50,6 +51,44 @@ def translate_defs(wb, opts=(), variant='plain'):
 def make_knobs(ch):
     return wasm.Knobs(ch, pad_prob_pct=ch.pick((5, 20, 50, 90)), customs=ch.below(2) == 0, data_flag2=ch.below(2) == 0,
                       empty_sections=ch.below(2) == 0, datacount=ch.below(2) == 0, local_groups=ch.below(2) == 0)
+
+
+SIZE_TARGETS = [k * 65536 for k in (1, 2, 3, 4)] + [4096, 8192, 16384, 32768, 1 << 18, 512, 1024, 2048, 3 * 4096, 5 * 4096, 1 << 20]
+
+
+def leb_u(v, n=None):
+    out = bytearray()
+    while True:
+        b = v & 0x7f
+        v >>= 7
+        if v or (n is not None and len(out) + 1 < n):
+            out.append(b | 0x80)
+        else:
+            out.append(b)
+            break
+    return bytes(out)
+
+
+def pad_to_size(wb, target, ch):
+    """wb plus one custom section (at the end, or right after the 8-byte header) so that the file is exactly `target` bytes long;
+    None if target is too close to len(wb).  The file size is a property of the encoding, not of the module."""
+    extra = target - len(wb)
+    if extra < 8:
+        return None
+    name = ch.pick((b'pad', b'', b'producers', b'.debug_info'))
+    for lebn in (1, 2, 3, 4, 5):
+        size = extra - 1 - lebn
+        if size < 1 + len(name):
+            continue
+        if len(leb_u(size)) > lebn:
+            continue
+        payload = leb_u(len(name)) + name
+        payload += bytes((i * 37 + 11) & 0xff for i in range(size - len(payload)))
+        sec = b'\0' + leb_u(size, lebn) + payload
+        out = (wb + sec) if ch.below(2) else (wb[:8] + sec + wb[8:])
+        assert len(out) == target
+        return out
+    return None
 
 
 def diff_summary(a, b):
@@ -120,6 +159,20 @@ def task(wid, seed, params):
             except (wasm.DecodeError, wasm.Unsupported) as e:
                 res['infra'].append('encoder self-check failed: %s' % e)
                 continue
+            if v == params['nenc'] - 1 and (ci % 2 == 0 or len(wb) > 3000):
+                # the last variant of every second case is brought to an exact file size (block / page / buffer multiples, and
+                # one byte either side): whether an encoding is accepted must not depend on its length
+                tgt = ch.pick(SIZE_TARGETS)
+                while tgt < len(wb) + 8:
+                    tgt += ch.pick((4096, 65536))
+                    tgt -= tgt % 4096
+                sized = pad_to_size(wb, tgt + ch.pick((0, 0, 0, 0, -1, 1)), ch)
+                if sized is not None:
+                    wb = sized
+                    res['classes']['exact_file_size_multiple_of_4096' if len(wb) % 4096 == 0 else 'file_size_next_to_block_multiple'] += 1
+                    if len(wb) % 65536 == 0:
+                        res['classes']['exact_file_size_multiple_of_65536'] += 1
+                    res['nontrivial'].add(f1.hx(wb))
             tr, defs, files = translate_defs(wb, opts)
             sig = None
             if tr.rc != 0:
